@@ -211,7 +211,7 @@ func genCase(t *rapid.T) Case {
 		free := w < 0 && nr == 0
 		var ch []weighted
 		add := func(op string, wt int) { ch = append(ch, weighted{op, wt}) }
-		add("skip", 1) // first choice = smallest draw: shrinking removes requests this way
+		add("skip", 1)     // first choice = smallest draw: shrinking removes requests this way
 		if len(open) > 0 { // leave room for requests on the handles
 			add("get", 2)
 			add("put", 3)
@@ -227,7 +227,7 @@ func genCase(t *rapid.T) Case {
 		if len(fin) > 0 {
 			add("badhandle", 2)
 		}
-		add("batchedge", 1) // 0 or 1001 operations: never takes the lock
+		add("batchedge", 1)              // 0 or 1001 operations: never takes the lock
 		if !didProduct && !md.hasBig() { // 360 answers: not while a 10 MiB value is listed
 			if w < 0 {
 				add("scanproduct", 1)
